@@ -308,6 +308,30 @@ def body_mask(case, ctx):
     if glens != lens or not rows_equal(grows, exp):
         raise Violation("mask-assign:content", expected=exp, got=grows, mask=mrows)
     expect_unchanged(m, mrows, "bool", "mask-assign-mask")
+    # ---- the same mask object, changed by ordinary cell assignments, used again: the second assignment follows the NEW mask
+    flips = case.get("flip") or []
+    allc = [(i, j) for i, l in enumerate(lens) for j in range(l)]
+    if ml == 0 and flips and allc:
+        ctx.label("mask-reused-after-change")
+        mrows2 = [list(r) for r in mrows]
+        for f in flips:
+            i, j = allc[f % len(allc)]
+            mrows2[i][j] = not mrows2[i][j]
+            w = lib(m.__setitem__, (i, j), mrows2[i][j])
+            if not w.ok:
+                raise Violation("mask-assign:mask-cell-write-refused", got=w.brief())
+        exp2 = copy.deepcopy(exp)
+        for i, mr in enumerate(mrows2):
+            for j, t in enumerate(mr):
+                if t:
+                    exp2[i][j] = -9
+        out = lib(ra.__setitem__, m, -9)
+        got = lib(lambda: snapshot(ra))
+        if not out.ok or not got.ok:
+            raise Violation("mask-assign:second-use-refused", got=(out if not out.ok else got).brief())
+        if got.value[2] != lens or not rows_equal(got.value[0], exp2):
+            raise Violation("mask-assign:second-use-content", expected=exp2, got=got.value[0], mask=mrows2, first_mask=mrows)
+        expect_unchanged(m, mrows2, "bool", "mask-assign-mask-second")
 
 
 @st.composite
@@ -317,7 +341,8 @@ def mask_case(draw, tier):
     mask = draw(st.one_of(st.lists(st.booleans(), min_size=tot, max_size=tot),
                           st.just([False] * tot), st.just([True] * tot)))
     return {"lens": lens, "mask": mask, "vk": draw(st.sampled_from(["scalar", "flat-array", "flat-list"])),
-            "mlazy": draw(st.sampled_from(LAZY_CHOICES)), "tlazy": draw(st.sampled_from(LAZY_CHOICES))}
+            "mlazy": draw(st.sampled_from(LAZY_CHOICES)), "tlazy": draw(st.sampled_from(LAZY_CHOICES)),
+            "flip": draw(st.lists(st.integers(0, 40), max_size=3))}
 
 
 # ---------------------------------------------------------------- exhaustive small scope
